@@ -569,14 +569,15 @@ static void gen_wrap(void) {
   else ap("Package:2147483648 Die:%s Core:%u(indexes=Core) PU:1", rng_chance(50) ? "2147483648" : "4294967295", 2 + rng_below(7));
 }
 static void gen_nbs(void) {
-  /* OPEN DEFECT: the product of the x*y counts is 0 modulo 2^64: assert(nbs) aborts; only with VERIF_INCLUDE_SYN_NBS=1 */
+  /* the product of the x*y counts would wrap (former F69: assert(nbs)); 2^32 objects (former assert(step)): indexes ignored */
   goff = 0; gbuf[0] = 0;
-  ap("PU:%u(indexes=1*65536:1*65536:1*65536:1*65536)", 1 + rng_below(8));
+  if (rng_chance(70)) ap("PU:%u(indexes=1*65536:1*65536:1*65536:1*65536)", 1 + rng_below(8));
+  else ap("Package:65536 PU:65536(indexes=%s)", rng_chance(50) ? "Machine" : "1*65536:65536*65536");
 }
 static void gen_string(void) {
   unsigned m = rng_below(100);
   if (rng_chance(1)) { gen_wrap(); return; }
-  if (env_on("VERIF_INCLUDE_SYN_NBS") && rng_chance(3)) { gen_nbs(); return; }
+  if (rng_chance(1)) { gen_nbs(); return; }
   if (m < 38) gen_typed();
   else if (m < 46) gen_untyped();
   else if (m < 52) gen_deep();
